@@ -188,7 +188,7 @@ def e_configs(ctx):
                          task_window=tw), 9 if t else 8),
         # a node dies with a request in flight: on_down, reconnector, probes; node back: on_up, new pool
         ('reconnect', dict(scenario='reconnect', alphabet=['kill', 'revive', 'sched'] + (['push'] if t else []),
-                           prefix=[('exec',), ('exec',)], max_exec=2, killable=(1,), task_window=tw), 11 if t else 9),
+                           prefix=[('exec',), ('exec',)], max_exec=2, killable=(1,), task_window=tw), 10 if t else 9),
         # the control connection's node dies: control connection reconnect (+ its reconnection handler when nobody is up)
         ('control', dict(scenario='control', alphabet=['kill', 'revive', 'sched'], prefix=[('exec',), ('exec',)], max_exec=2,
                          killable=(0, 1) if t else (0,), task_window=tw), 10 if t else 8),
